@@ -617,6 +617,79 @@ var c04Tokens = []string{"Ab", "true", "null", "'s'", "1", "1.5", "(", ")", "[",
 var c04Chars = []byte("aex019.-+_'\" ()[]!<>=&|*,}")
 var c04Gaps = []string{" ", "", "\t\n "}
 
+// c04Unterminated: placeholders whose end marker is missing or malformed (no }} follows the ${{),
+// at string positions of a workflow: rejected text, exactly one syntax diagnostic on that line.
+var c04UnterminatedValues = []string{"${{ github.sha", "${{ github.sha ==", "${{ github.sha }", "${{ github.sha } }", "x ${{ 1 } } y", "${{", "${{ 'abc", "a ${{ 1 }", "${{ github.sha }!"}
+
+var c04UnterminatedPositions = []struct {
+	name string
+	src  string // § = the value (single-quoted by the generator); the value stands on the line of §
+}{
+	{"run", "on: push\njobs:\n  a:\n    runs-on: ubuntu-latest\n    steps:\n      - run: §\n"},
+	{"step-name", "on: push\njobs:\n  a:\n    runs-on: ubuntu-latest\n    steps:\n      - run: echo\n        name: §\n"},
+	{"step-env", "on: push\njobs:\n  a:\n    runs-on: ubuntu-latest\n    steps:\n      - run: echo\n        env:\n          V: §\n"},
+	{"step-with", "on: push\njobs:\n  a:\n    runs-on: ubuntu-latest\n    steps:\n      - uses: actions/checkout@v4\n        with:\n          ref: §\n"},
+	{"working-directory", "on: push\njobs:\n  a:\n    runs-on: ubuntu-latest\n    steps:\n      - run: echo\n        working-directory: §\n"},
+	{"job-name", "on: push\njobs:\n  a:\n    name: §\n    runs-on: ubuntu-latest\n    steps:\n      - run: echo\n"},
+	{"job-env", "on: push\njobs:\n  a:\n    runs-on: ubuntu-latest\n    env:\n      V: §\n    steps:\n      - run: echo\n"},
+	{"run-name", "on: push\nrun-name: §\njobs:\n  a:\n    runs-on: ubuntu-latest\n    steps:\n      - run: echo\n"},
+	{"workflow-env", "on: push\nenv:\n  V: §\njobs:\n  a:\n    runs-on: ubuntu-latest\n    steps:\n      - run: echo\n"},
+	{"concurrency-group", "on: push\nconcurrency:\n  group: §\njobs:\n  a:\n    runs-on: ubuntu-latest\n    steps:\n      - run: echo\n"},
+	{"job-output", "on: push\njobs:\n  a:\n    runs-on: ubuntu-latest\n    outputs:\n      o: §\n    steps:\n      - run: echo\n"},
+	{"matrix-value", "on: push\njobs:\n  a:\n    runs-on: ubuntu-latest\n    strategy:\n      matrix:\n        v: [§]\n    steps:\n      - run: echo\n"},
+}
+
+// c04AfterMarkerValues: VALID placeholders followed by characters the scanner library complains about
+// (NUL, written as an escape of a double-quoted scalar): what follows the end marker is not part of
+// the expression - accepted, no syntax diagnostic. Written as the inside of a double-quoted scalar.
+var c04AfterMarkerValues = []string{`${{ 'x' }}\0`, `${{ 1 }}\0 tail`, `a ${{ github.sha }}\0${{ 2 }}`, `${{ true }}\0\0`}
+
+func c04AfterMarkerCase(r *vReport, pos int, val string) {
+	p := c04UnterminatedPositions[pos]
+	src := strings.Replace(p.src, "§", "\""+val+"\"", 1)
+	res := vLint(src, nil)
+	r.Evaluations++
+	r.Transitions++
+	r.Validated++
+	replay := map[string]any{"src": val, "e2e": "after-marker", "position": pos}
+	if res.Panic != "" || res.Err != nil {
+		r.Violation("e2e-failure", fmt.Sprintf("placeholder %q at %s: panic=%q err=%v", val, p.name, vTrunc(res.Panic, 200), res.Err), replay)
+		return
+	}
+	for _, d := range vDiags(res.Errs) {
+		if d.Kind == "expression" && c04SyntaxRe.MatchString(d.Msg) {
+			r.Violation("e2e-false-reject-by-text-after-the-marker:"+p.name, fmt.Sprintf("%q at %s: the placeholders are valid, yet a syntax diagnostic is reported because of what FOLLOWS an end marker: %v", val, p.name, d), replay)
+			break
+		}
+	}
+	r.Class("valid placeholder followed by NUL at "+p.name, false)
+}
+
+func c04UnterminatedCase(r *vReport, pos int, val string) {
+	p := c04UnterminatedPositions[pos]
+	src := strings.Replace(p.src, "§", "'"+strings.ReplaceAll(val, "'", "''")+"'", 1)
+	line := strings.Count(p.src[:strings.Index(p.src, "§")], "\n") + 1
+	res := vLint(src, nil)
+	r.Evaluations++
+	r.Transitions++
+	r.Validated++
+	replay := map[string]any{"src": val, "e2e": "unterminated", "position": pos}
+	if res.Panic != "" || res.Err != nil {
+		r.Violation("e2e-failure", fmt.Sprintf("unterminated placeholder %q at %s: panic=%q err=%v", val, p.name, vTrunc(res.Panic, 200), res.Err), replay)
+		return
+	}
+	var syn []vDiag
+	for _, d := range vDiags(res.Errs) {
+		if d.Kind == "expression" && c04SyntaxRe.MatchString(d.Msg) && d.Line == line {
+			syn = append(syn, d)
+		}
+	}
+	if len(syn) != 1 {
+		r.Violation("e2e-unterminated-placeholder:"+p.name, fmt.Sprintf("%q at %s: a placeholder without an end marker must yield exactly one syntax diagnostic on line %d, got %d: %v", val, p.name, line, len(syn), vDiagStrings(res.Errs)), replay)
+	}
+	r.Class("unterminated placeholder at "+p.name, true)
+}
+
 func TestVerifC04(t *testing.T) {
 	r := vNewReport("C04")
 	defer r.Write(t)
@@ -630,16 +703,27 @@ func TestVerifC04(t *testing.T) {
 	r.Bounds["e2e_token_sequence_length"] = e2eN
 	r.Bounds["token_alphabet"] = c04Tokens
 	r.Bounds["char_alphabet"] = string(c04Chars)
-	r.Extra["rule"] = "all token sequences <= n over 22 tokens (single-space rendering; for short sequences every gap in {closed, space, tab-newline-space}), all character strings <= m over 26 characters followed by }}, numeric sub-enumeration; each parsed by ExprParser and by the reference tokeniser+grammar (accept/reject, normalised tree, end offset, error offset); short sequences also through Linter.Lint in run: and if:. class = reference verdict x (node count | rejection reason); non-trivial = accepted by the reference"
+	r.Extra["rule"] = "all token sequences <= n over 22 tokens (single-space rendering; for short sequences every gap in {closed, space, tab-newline-space}), all character strings <= m over 26 characters followed by }}, numeric sub-enumeration; each parsed by ExprParser and by the reference tokeniser+grammar (accept/reject, normalised tree, end offset, error offset); short sequences also through Linter.Lint in run: and if:. class = reference verdict x (node count | rejection reason); non-trivial = accepted by the reference; 9 placeholders whose end marker is missing or malformed at 12 string positions of a workflow through Linter.Lint (exactly one syntax diagnostic on that line), 4 valid placeholders followed by NUL at the same positions (no syntax diagnostic)"
 	r.Extra["assumptions"] = []string{"identifier / string / number tokens are represented by Ab, true, null, 's', 1, 1.5 in the token enumeration", "appendix A don't-care classes (-0x.., 0x0.., float overflow) are not compared"}
 
 	if raw := vReplayInput(); raw != nil {
 		var c struct {
-			Src string `json:"src"`
-			E2E string `json:"e2e"`
+			Src      string `json:"src"`
+			E2E      string `json:"e2e"`
+			Position int    `json:"position"`
 		}
 		if err := jsonUnmarshal(raw, &c); err != nil {
 			t.Fatal(err)
+		}
+		if c.E2E == "after-marker" {
+			c04AfterMarkerCase(r, c.Position, c.Src)
+			c04AfterMarkerCase(r, c.Position, c.Src)
+			return
+		}
+		if c.E2E == "unterminated" {
+			c04UnterminatedCase(r, c.Position, c.Src)
+			c04UnterminatedCase(r, c.Position, c.Src)
+			return
 		}
 		if c.E2E == "if-premature-end" {
 			src := "on: push\njobs:\n  a:\n    runs-on: ubuntu-latest\n    steps:\n      - run: echo\n        if: '" + strings.ReplaceAll(c.Src, "'", "''") + "'\n"
@@ -681,6 +765,20 @@ func TestVerifC04(t *testing.T) {
 	}
 
 	var idx int64
+	for pi := range c04UnterminatedPositions {
+		for _, v := range c04UnterminatedValues {
+			idx++
+			if r.Mine(idx) {
+				c04UnterminatedCase(r, pi, v)
+			}
+		}
+		for _, v := range c04AfterMarkerValues {
+			idx++
+			if r.Mine(idx) {
+				c04AfterMarkerCase(r, pi, v)
+			}
+		}
+	}
 	// (a) token sequences
 	k := int64(len(c04Tokens))
 	seq := make([]string, 0, n)
